@@ -106,9 +106,14 @@ def check_row_ids(chk, rep, repo, only=None, floor=3):
     # the arrays it receives have the caller's names; it is not analysed a second time on its own
     anchors = ("_build", "_load", "_read_distances")
 
+    from ..ir import api_signature
+
+    def extension(f):  # a graph method the documented API does not have
+        return f.cls in ("Subgraph", "KNNSubgraph") and not f.name.startswith("__") and api_signature(f) is None
+
     def helper_of(fi):
-        return lambda f: f.name.startswith("_") and not f.name.startswith("__") and f.name not in anchors \
-            and f.module == fi.module and (f.cls is None or f.cls == fi.cls)
+        return lambda f: extension(f) or (f.name.startswith("_") and not f.name.startswith("__") and f.name not in anchors
+                                          and f.module == fi.module and (f.cls is None or f.cls == fi.cls))
     walks = {}
     for fi in repo.all_functions():
         if fi.module.startswith("opfython.utils"):
@@ -121,8 +126,8 @@ def check_row_ids(chk, rep, repo, only=None, floor=3):
             walks[fi.fq] = (fi, Walker(repo, fi, self_class=fi.cls, inline=helper_of(fi)))
     inlined = {fq for _, w in walks.values() for fq in w.inlined}
     for fq, (fi, w) in walks.items():
-        if only is None and fq in inlined and fi.name.startswith("_") and not fi.name.startswith("__") \
-                and fi.name not in anchors:
+        if only is None and fq in inlined and ((fi.name.startswith("_") and not fi.name.startswith("__")
+                                               and fi.name not in anchors) or extension(fi)):
             continue
         for ev in w.events:
             if not (ev.kind == "call" and ev.name == "__new__" and ev.value[0] == "new" and ev.value[1] == "Node"):
